@@ -111,12 +111,90 @@ stub_unit('process_command', 'harness/c08_cmd.c', 'process_command',
 stub_unit('unused', 'harness/c08_cmd.c', '_dbus_auth_get_unused_bytes / _dbus_auth_delete_unused_bytes / _dbus_auth_get_bytes_to_send / _dbus_auth_bytes_sent', {},
           'leftover bytes are handed out / dropped only in a terminal state and are the incoming buffer itself; outgoing loses exactly the written prefix; conversation state untouched',
           defines=['VERIF_FN=3'], props=('C08', 'C11'), must=['get_unused_bytes:', 'delete_unused_bytes:'], assumptions=[A_CRED, A_SELF])
-UNITS.append(dict(
-    name='C08.do_work', props=['C08', 'C10', 'C11'], kind='P', route='hybrid', harness='harness/c08_cmd.c', defines=['VERIF_FN=2'],
-    tus=[dict(file=AUTH, include_as='VERIF_TU', overlay='c08_auth.ovl')],
-    replace_calls={'process_command': 'verif_stub_process_command'}, timeout=900, expect_s=30,
-    must_have=['do_work:', 'AUTH_INV preserved', 'Check invariant after step for loop'],
-    functions=[dict(name='_dbus_auth_do_work', file=AUTH, status='enforced',
-                    contract='loop contract AUTH_INV + buffer accounting; AUTHENTICATED only in state Authenticated with nothing left to send; >16384 buffered => NeedDisconnect; terminal state => nothing processed; bytes leave incoming only as whole lines; nothing processed after BEGIN'),
-               dict(name='process_command', file=AUTH, status='replaced', note='contract proved in C08.process_command')],
-    assumptions=[A_STR, A_CRED, A_SELF]))
+stub_unit('do_work', 'harness/c08_cmd.c', '_dbus_auth_do_work', {'process_command': 'process_command_ind'},
+          'loop invariant AUTH_INV + buffer accounting (base and inductive step asserted in the callee contract); AUTHENTICATED only in state Authenticated with nothing left to send; >16384 buffered => NeedDisconnect, nothing processed; terminal state => nothing processed; bytes leave incoming only as whole lines; nothing processed after BEGIN',
+          defines=['VERIF_FN=2'], props=('C08', 'C10', 'C11'),
+          must=['do_work:', 'AUTH_INV preserved', 'loop invariant holds after the first command', 'loop invariant is preserved by one more command'],
+          assumptions=[A_CRED, A_SELF], unwindset=['_dbus_auth_do_work.0:3'], cbmc_flags=['--unwinding-assertions'],
+          extra_fn=[dict(name='process_command', file=AUTH, status='replaced', note='contract proved in C08.process_command; the induction over loop iterations is carried by verif_stub_process_command_ind (havoc to LOOP_INV, step check, assume false), because CBMC loop contracts cannot dereference the havocked auth->state')])
+
+# ---- transport: admission and hand-over of leftover bytes ----
+TR = [dict(file='dbus/dbus-transport.c', include_as='VERIF_TU')]
+A_AUTHOBJ = ('the DBusAuth object is seen through its contracts: _dbus_auth_do_work returns AUTHENTICATED only in state Authenticated (C08.do_work), '
+             '_dbus_auth_get_identity returns the authorized identity, which is empty before authentication (AUTH_INV 3), unused-bytes accessors as in C08.unused')
+
+
+def tr_unit(name, fn, n, contract, props, must, extra_assume=()):
+    UNITS.append(dict(name='C08.' + name, props=list(props), kind='P', route='stub', tus=TR, harness='harness/c08_transport.c', defines=['VERIF_FN=%d' % n],
+                      replace_calls={'_dbus_transport_disconnect': 'verif_stub_transport_disconnect'}, timeout=600, expect_s=10, must_have=list(must),
+                      functions=[dict(name=fn, file='dbus/dbus-transport.c', status='enforced', contract=contract),
+                                 dict(name='_dbus_transport_disconnect', file='dbus/dbus-transport.c', status='replaced', note='contract: afterwards transport->disconnected; the vtable hook is not modelled'),
+                                 dict(name='_dbus_auth_*', file=AUTH, status='stub', note=A_AUTHOBJ)],
+                      assumptions=[A_STR, A_CRED, A_SELF, A_AUTHOBJ] + list(extra_assume)))
+
+
+tr_unit('try_auth', '_dbus_transport_try_to_authenticate + auth_via_unix_user_function + auth_via_windows_user_function + auth_via_default_rules', 1,
+        'authenticated set only after do_work==AUTHENTICATED and, on the server, after the user function or the default rule (root / same user / allow_anonymous) admitted the authorized identity; anonymous identity only under allow_anonymous; refusal => disconnect; ref/lock balanced',
+        ('C08',), ['try_to_authenticate:'], ['the application callbacks return an arbitrary verdict'])
+tr_unit('recover', 'recover_unused_bytes', 2,
+        'TRUE => the unused handshake bytes were appended to the end of the loader buffer and then deleted from the auth object, once; FALSE => they stay where they were',
+        ('C08', 'C11'), ['recover_unused_bytes:'])
+tr_unit('dispatch_status', '_dbus_transport_get_dispatch_status', 3,
+        'the loader frames messages only when authenticated and after the unused bytes were recovered; recovery at most once per transport',
+        ('C08', 'C11'), ['get_dispatch_status:'])
+
+# ---- socket transport: no message I/O before authentication; handshake bytes go to the auth conversation only ----
+SOCK = [dict(file='dbus/dbus-transport-socket.c', include_as='VERIF_TU')]
+A_TRYAUTH = '_dbus_transport_try_to_authenticate is replaced by its result (contract proved in C08.try_auth); socket and errno functions return arbitrary results of the documented shape'
+for n, nm, fn, contract, must in (
+        (1, 'io_guard.read', 'do_reading', 'try_to_authenticate == FALSE => TRUE, no loader buffer, no socket read, no decode, no buffer changes', ['unauthenticated:']),
+        (2, 'io_guard.write', 'do_writing', 'try_to_authenticate == FALSE => TRUE, no message taken from the queue, no socket write, no encode', ['unauthenticated:']),
+        (3, 'auth_io.read', 'read_data_into_auth', 'one socket read of at most max_bytes_read_per_iteration into the auth buffer (get/return paired), never the loader; EOF/hard error => disconnect; ENOMEM => *oom', ['read_data_into_auth:']),
+        (4, 'auth_io.write', 'write_data_from_auth', 'exactly the pending auth bytes are offered; exactly the written count is removed', ['write_data_from_auth:'])):
+    UNITS.append(dict(name='C08.' + nm, props=['C08', 'C10'] if n <= 2 else ['C08', 'C11'], kind='P', route='stub', tus=SOCK, harness='harness/c08_socket.c',
+                      defines=['VERIF_FN=%d' % n], timeout=600, expect_s=10, must_have=must,
+                      functions=[dict(name=fn, file='dbus/dbus-transport-socket.c', status='enforced', contract=contract),
+                                 dict(name='_dbus_transport_try_to_authenticate', file='dbus/dbus-transport.c', status='stub', note='result only; contract proved in C08.try_auth'),
+                                 dict(name='_dbus_read_socket / _dbus_write_socket* / errno predicates', file='dbus/dbus-sysdeps-unix.c', status='assumed', note='kernel I/O: arbitrary result in range')],
+                      assumptions=[A_STR, A_TRYAUTH] + (['only the unauthenticated case is the subject: the loops behind the guard are unreachable then (their unwinding assertions hold vacuously); '
+                                                          '--unwind 2 is given only so that a removed guard yields a violation instead of a non-terminating run'] if n <= 2 else []),
+                      **(dict(unwind=2) if n <= 2 else {})))
+
+# ---- bounded stand-ins on the REAL dbus-string.c ----
+STRTU = dict(file='dbus/dbus-string.c')
+B_HANDLERS = dict({h: 'verif_stub_handler_b' for h in ALL_HANDLERS}, send_error='verif_stub_send_error_b', fixup_alignment='verif_stub_fixup_alignment')
+A_ALIGN = 'platform fact (DESIGN 3.5): allocator blocks are 8-aligned, so fixup_alignment of dbus-string.c never shifts the text (bound to that statement with --replace-calls)'
+
+
+def bline(name, n, defines, tier, extra_assume, expect):
+    UNITS.append(dict(name='C08.' + name, props=['C08', 'C10', 'C11'], kind='B', route='stub', tus=[dict(file=AUTH, include_as='VERIF_TU'), STRTU],
+                      harness='harness/c08_bline.c', extra_sources=['stubs/c08_mem.c'], defines=['VERIF_N=%d' % n, 'VERIF_MEM_CAP=%d' % (n + 8)] + defines,
+                      replace_calls=B_HANDLERS, unwind=max(n + 3, 20), timeout=1500, expect_s=expect, tier=tier,
+                      must_have=['b_cmdline:'], bounds={'incoming_bytes': n, 'note': 'all byte contents and lengths 0..%d of the incoming buffer; loops of dbus-string.c and of the command table completely unwound' % n},
+                      functions=[dict(name='process_command + lookup_command_from_name', file=AUTH, status='bounded', contract='byte-exact line framing against a reference splitter written from the specification'),
+                                 dict(name='_dbus_string_find/_copy_len/_validate_ascii/_find_blank/_skip_blank/_delete/_move/_equal_c_str/...', file='dbus/dbus-string.c', status='bounded', note='real code, no assertion of the library may fail'),
+                                 dict(name='state handlers, send_error', file=AUTH, status='replaced', note='record what they are given; covered by the P units')],
+                      assumptions=['dbus_malloc family = CBMC allocator with constant block capacity, never failing in this unit (stubs/c08_mem.c)', A_ALIGN] + extra_assume))
+
+
+bline('b_cmdline', 8, [], 'quick', [], 120)
+bline('b_cmdline.nostray', 8, ['VERIF_NO_STRAY_CRLF'], 'quick',
+      ['EXTRA (weakening, twin of C08.b_cmdline which is red on the pinned tree): CR and LF occur in the buffer only as the CRLF pair'], 120)
+UNITS.append(dict(name='C08.b_hex', props=['C08', 'C10'], kind='B', route='stub', tus=[STRTU], harness='harness/c08_bhex.c', extra_sources=['stubs/c08_mem.c'],
+                  defines=['VERIF_N=8', 'VERIF_MEM_CAP=16'], replace_calls={'fixup_alignment': 'verif_stub_fixup_alignment'}, unwind=12, timeout=1500, expect_s=60,
+                  must_have=['hex_decode:'], bounds={'source_bytes': 8, 'note': 'every content of 0..8 source bytes; all loops completely unwound'},
+                  functions=[dict(name='_dbus_string_hex_decode', file='dbus/dbus-string.c', status='bounded', contract='end = first non-hex byte; byte k = 16*digit(2k)+digit(2k+1); source untouched; no library assertion fails')],
+                  assumptions=['dbus_malloc family = CBMC allocator with constant block capacity, never failing in this unit (stubs/c08_mem.c)', A_ALIGN]))
+for sc, nm, what in ((1, 'external', 'AUTH EXTERNAL <uid> / BEGIN + 3 trailing bytes'), (2, 'early_begin', 'AUTH / BEGIN'),
+                     (3, 'cancel_switch', 'AUTH ANONYMOUS / CANCEL / AUTH EXTERNAL <uid> / BEGIN + 3 trailing bytes'),
+                     (4, 'poke_fd', 'AUTH EXTERNAL / DATA / NEGOTIATE_UNIX_FD / BEGIN + 3 trailing bytes')):
+    UNITS.append(dict(name='C08.b_e2e.' + nm, props=['C08', 'C10', 'C11'], kind='B', route='stub', tus=[dict(file=AUTH, include_as='VERIF_TU'), STRTU],
+                      harness='harness/c08_be2e.c', extra_sources=['stubs/c08_mem.c'], defines=['VERIF_SCRIPT=%d' % sc, 'VERIF_K=3', 'VERIF_MEM_CAP=192'],
+                      replace_calls={'fixup_alignment': 'verif_stub_fixup_alignment', '_dbus_string_append_printf': 'verif_stub_append_printf'},
+                      unwind=200, timeout=1500, expect_s=120, tier='quick', must_have=['e2e'],
+                      bounds={'script': what, 'note': 'one fixed client script; socket credentials, user-database answer, fd capability and the 3 trailing bytes are arbitrary; all loops completely unwound'},
+                      functions=[dict(name='_dbus_auth_server_new, _dbus_auth_do_work, process_command, handle_server_state_*, handle_auth, process_data, mechanisms, send_*', file=AUTH, status='bounded',
+                                      contract='final state, exact server replies, granted identity and unused bytes equal the specification run of the script'),
+                                 dict(name='dbus-string.c functions on the path', file='dbus/dbus-string.c', status='bounded', note='real code')],
+                      assumptions=[A_CRED, A_USERDB, A_SELF, A_ALIGN, 'dbus_malloc family = CBMC allocator with constant block capacity, never failing in this unit (stubs/c08_mem.c)',
+                                   'the text of ERROR explanations is not modelled (_dbus_string_append_printf bound to a fixed line)']))
